@@ -302,8 +302,8 @@ def validate_events(chk: Check, events, tag, parts=None):
 
 
 # ----------------------------------------------------------------------------- path G: exhaustive small universe
-def gen_vectors(chk: Check, maxb=2, with_c=True, cu=3):
-    cfg = tlc.cfg_text(constants={"NW": 4, "MaxB": maxb, "CU": cu, "WithC": with_c})
+def gen_vectors(chk: Check, maxb=2, with_c=True, cu=3, with_ans=True):
+    cfg = tlc.cfg_text(constants={"NW": 4, "MaxB": maxb, "CU": cu, "WithC": with_c, "WithAns": with_ans})
     res = tlc.run("Gen_Ops", cfg, f"{chk.prop}_gen", timeout=1800)
     tlc.require_ok(res, "Gen_Ops")
     chk.add_tlc("Gen_Ops", res, f"every base of <= {maxb} conditionals over 2 atoms, expected answers for all 81 queries")
